@@ -215,6 +215,16 @@ class PGen:
             s["post"] = self.simple(ctx)
             if r.random() < 0.15:
                 s["init"] = None
+            if "declinit" in self.feats and r.random() < 0.4:
+                # 'for x := …; c; x++ { … }': the rewriter hoists a ':=' initialiser into a fresh block around the loop
+                outer = list(ctx["vars"])
+                x = r.choice(outer) if outer and r.random() < 0.4 else self.var()
+                s["init"] = {"s": "decl", "x": x, "id": self.fresh()}
+                if r.random() < 0.5:
+                    s["post"] = {"s": "inc", "x": x}
+                sub = dict(sub, vars=[v for v in ctx["vars"] if v != x] + [x])
+                s["b"] = [{"s": "use", "x": x, "id": self.fresh()}] + self.stmts(r.randint(1, 3), sub, size)
+                return s
         # else: infinite loop
         s["b"] = self.stmts(r.randint(1, 3), sub, size)
         if s["c"] is None:
@@ -423,6 +433,10 @@ class Render:
             return self.yield_("tr.V(%d)" % s["id"], s["id"] % 4 == 0)
         if k == "yieldx":
             return self.yield_(s["x"])
+        if k == "decl":
+            return "%s := tr.I(%d)" % (s["x"], s["id"])
+        if k == "inc":
+            return "%s++" % s["x"]
         raise ValueError(s)
 
     def yield_(self, e, explicit=False):
